@@ -65,6 +65,9 @@ type vfRun struct {
 	// the message that first hands its resource over
 	held          map[string]bool
 	checkHandover bool
+	// noCallSubscription: protocol versions below 1.2.0, where a call / auth
+	// resource response names the resource without subscribing it
+	noCallSubscription bool
 }
 
 func vfNewRun(w *vfWorld, cl *vfClient) *vfRun {
